@@ -92,6 +92,12 @@ def tlc(module, cfg, *, workers=None, timeout=900, simulate=None, depth=None, se
     if isinstance(cfg, tuple):          # (name, text): a cfg instantiated from a template by the check
         with open(os.path.join(wd, cfg[0]), "w") as fh:
             fh.write(cfg[1])
+        if os.environ.get("VERIF_SAVE_CFG"):
+            # keep a copy under spec/cfg/ so that the model can be run by hand:  tlc -config cfg/<Module>__<name>.cfg <Module>.tla
+            # (trace-validation configurations also need VERIF_TRACE=<trace file>; exports go to $VERIF_OUT, default the current directory)
+            os.makedirs(os.path.join(SPEC, "cfg"), exist_ok=True)
+            with open(os.path.join(SPEC, "cfg", "%s__%s__%s" % (module, tag, cfg[0])), "w") as fh:
+                fh.write(cfg[1])
         cfg = cfg[0]
     e = dict(os.environ)
     e["VERIF_OUT"] = wd
